@@ -54,5 +54,17 @@ UNIT = Unit(
                "  index is Some ==> (index->0 < old(self).columns@.len() && old(self).columns@[index->0 as int].var@ == var@ "
                "&& forall|j: int| 0 <= j < index->0 ==> (#[trigger] old(self).columns@[j]).var@ != var@),\n"
                "decreases self.columns@.len() - __ci,")),
+        Raw(text="use Expr::*;\nuse Pat::*;\n"),
+        Fn(file=CM, name="move_variable_patterns", attrs="#[verifier::loop_isolation(false)]", rules=["attrs", ("strip", "tast::"), "vec_retain"],
+           rewrites=[(re.compile(r"\.clone\(\)"), ".vclone()", "*")],
+           obligation="variable / wildcard columns disappear, the other columns stay in order; every variable column adds `let <pattern var> = <column var>` around the body",
+           contract="""ensures final(row).columns@ == kept_cols(old(row).columns@, old(row).columns@.len() as int),
+            wrapped(final(row).body, old(row).columns@, old(row).columns@.len() as int, old(row).body),""",
+           ghost=[("@entry", "", "let ghost cs0 = row.columns@; let ghost b0 = row.body;"),
+                  ("@loop:0:body", "", "let ghost bi = row.body; let ghost ki = cs0.len() - __ro0@.len();"),
+                  ("@loop:0:end", "", "proof { reveal_with_fuel(kept_cols, 2); reveal_with_fuel(wrapped, 2); if is_var_col(cs0[ki]) { assert(binds_col(row.body, cs0[ki], bi)); } }")],
+           loop_fn=lambda k, header, kw: ("invariant __ro0@.len() <= cs0.len(), __ro0@ == cs0.subrange(cs0.len() - __ro0@.len(), cs0.len() as int),\n"
+                                          "  row.columns@ == kept_cols(cs0, cs0.len() - __ro0@.len()), wrapped(row.body, cs0, cs0.len() - __ro0@.len(), b0),\n"
+                                          "decreases __ro0@.len(),")),
     ],
 )
